@@ -48,7 +48,7 @@ def build_harness():
     if not os.path.exists(lock):
         shutil.copy(os.path.join(REPO, "Cargo.lock"), lock)
     t0 = time.time()
-    p = subprocess.run(["cargo", "build", "--release", "--offline", "-q"], cwd=HARNESS, env=env,
+    p = subprocess.run(["cargo", "build", "--release", "--offline", "-q", "--workspace"], cwd=HARNESS, env=env,
                        stdout=subprocess.PIPE, stderr=subprocess.STDOUT, text=True)
     if p.returncode != 0:
         errs = [l for l in clean(p.stdout).splitlines() if l.startswith("error")][:10]
@@ -56,8 +56,9 @@ def build_harness():
     log("[build] harness ok in %.1fs" % (time.time() - t0))
 
 
-def run_fv(args, timeout=600):
-    p = subprocess.run([FV] + [str(a) for a in args], stdout=subprocess.PIPE, stderr=subprocess.PIPE, text=True,
+def run_fv(args, timeout=600, binary=None):
+    exe = os.path.join(HARNESS, "target", "release", binary) if binary else FV
+    p = subprocess.run([exe] + [str(a) for a in args], stdout=subprocess.PIPE, stderr=subprocess.PIPE, text=True,
                        timeout=timeout)
     out = clean(p.stdout).strip().splitlines()
     if p.returncode != 0:
